@@ -20,7 +20,7 @@ LEVEL = "proof"
 TRUSTED_BASE = [
     "Lean 4.33 kernel",
     "hand-written model GraphiqModel/Model/{Pauli,Tableau}.lean tied to clifford.py/transformation.py/linalg.py by this correspondence run",
-    "tensor-product lifting of the kernel-checked 1-/2-qubit conjugation tables to n qubits (textbook)",
+    "Hilbert-space reading (gates, measurement, and since deep-c07h also insert/remove/partial trace/tensor: Properties/C07.lean sections 6-7) is about Mathlib matrices indexed by bit strings, proved to be Kronecker products; that numpy evaluates np.kron chains as these matrices is compared numerically (dense reference, n<=5), not proved",
     "harness, line protocol, numpy dense reference simulator (n<=5)",
 ]
 ASSUMPTIONS = [
